@@ -645,6 +645,7 @@ def run_flow(plan, max_ticks=60000):
     wire = flow_wire(plan["frames"] if k is None else plan["frames"][:k], masked=side == "server")
     wire2 = b"" if k is None else flow_wire(plan["frames"][k:], masked=side == "server")
     tcls = type("FlowT", (FlowTransport,), {"seg": seg})
+    got = []
     with Sim(cfg) as sim:
         sim.transport_cls = tcls
         loop = sim.loop
@@ -659,8 +660,8 @@ def run_flow(plan, max_ticks=60000):
                 sim.tick()
             return False
 
+        holder = {}
         if side == "server":
-            holder = {}
             forever = loop.create_future()
             sim._keep.append(forever)
 
@@ -670,6 +671,16 @@ def run_flow(plan, max_ticks=60000):
                 ws = web.WebSocketResponse(timeout=10.0, compress=False)
                 await ws.prepare(request)
                 holder["ws"] = ws
+                if plan.get("app") == "handler":
+                    # the usual server shape: the handler itself iterates and returns the response object
+                    async for m in ws:
+                        got.append(("bin" if m.type is WSMsgType.BINARY else "text" if m.type is WSMsgType.TEXT else msg_token(m),
+                                    len(m.data) if m.type in (WSMsgType.BINARY, WSMsgType.TEXT) else 0))
+                        if plan.get("app_delay_ms"):
+                            await asyncio.sleep(plan["app_delay_ms"] / 1000)
+                    got.append(("ITER_END",))
+                    holder["returned"] = True
+                    return ws
                 await forever
                 return ws
 
@@ -696,9 +707,21 @@ def run_flow(plan, max_ticks=60000):
             if not plan.get("eager"):
                 sim.tr.feed(wire)
         ws, tr, proto = sim.ws, sim.tr, sim.proto
-        got = []
 
         async def app():
+            if plan.get("app") == "handler":
+                while "returned" not in holder:
+                    await asyncio.sleep(0.125)
+                return
+            if plan.get("app") == "iter":
+                # what most applications write: `async for msg in ws`
+                async for m in ws:
+                    got.append(("bin" if m.type is WSMsgType.BINARY else "text" if m.type is WSMsgType.TEXT else msg_token(m),
+                                len(m.data) if m.type in (WSMsgType.BINARY, WSMsgType.TEXT) else 0))
+                    if plan.get("app_delay_ms"):
+                        await asyncio.sleep(plan["app_delay_ms"] / 1000)
+                got.append(("ITER_END",))
+                return
             while True:
                 m = await ws.receive()
                 if m.type in (WSMsgType.BINARY, WSMsgType.TEXT):
@@ -713,7 +736,11 @@ def run_flow(plan, max_ticks=60000):
             # the rest of the peer's frames is sent later (a separate TCP segment): it waits in the transport while reading is paused
             loop.call_later(plan.get("gap_ms", 125) / 1000, tr.feed, wire2)
         task = loop.create_task(app())
-        idle = run_until(lambda: False) or True
+        if plan.get("app") == "handler":
+            # the polling helper task must not keep the loop alive for ever when the handler never returns
+            run_until(lambda: task.done() or loop.time() > 600)
+        else:
+            run_until(lambda: False)
         sim._prune()
         quiescent = not loop._ready and not loop._scheduled
         err = None
